@@ -460,7 +460,7 @@ class DAE:
         Reset array sizes to zero and clear all arrays.
         """
 
-        self.set_t(0.0)
+        self.set_t(-1.0)
         self.m = 0
         self.n = 0
         self.o = 0
